@@ -78,6 +78,7 @@ package votecounter
 //@   logged as ValidatorVotingPower
 //@ func (*VoteCounter).AddProposal
 //@   props C12
+//@   ownpackage
 //@   arith int
 //@   nosafe
 //@   requires v != nil && proposal != nil
@@ -89,6 +90,7 @@ package votecounter
 // Quorum queries compare the power counted for exactly the asked kind and value with the quorum.
 //@ func (*VoteCounter).HasQuorumForVote
 //@   props C12
+//@   ownpackage
 //@   arith int
 //@   nosafe
 //@   requires v != nil && voteType < 2
